@@ -267,6 +267,10 @@ impl VacancyMapSlice<'_> {
     }
 }
 
+// Verification hook (H1): module-private accessors for harnesses, kept outside the repository.
+#[cfg(any(kani, folo_verif))]
+include!(concat!(env!("FOLO_VERIF_DIR"), "/kani/infinity_pool/vacancy_map_hooks.rs"));
+
 #[cfg(test)]
 #[expect(
     clippy::multiple_unsafe_ops_per_block,
